@@ -182,7 +182,11 @@ func (f *Frame) staticCall(bi *BInfo, fn *ssa.Function, cl *closureVal, args []T
 				clean = append(clean, a)
 			}
 		}
-		return []T{g.pureApp(fo, clean)}
+		res := []T{g.pureApp(fo, clean)}
+		for i := 1; i < fo.Type().(*types.Signature).Results().Len(); i++ {
+			res = append(res, g.pureAppN(fo, clean, i))
+		}
+		return res
 	}
 	key := contractKeyOf(fn)
 	fc := g.cs.Funcs[key]
@@ -453,7 +457,11 @@ func (f *Frame) applyContractNamed(bi *BInfo, fc *FuncContract, sig *types.Signa
 		}
 	}
 	if len(fc.GhostSets) > 0 {
-		f.applyGhostSets(fc, post, st)
+		// the right-hand sides read the state before the call (the callee's own effect on the
+		// ghosts IS the ghostset); results are available
+		ge := *post
+		ge.cur = pre
+		f.applyGhostSets(fc, &ge, st)
 	}
 	for _, c := range fc.Ensures {
 		v, err := post.evalBool(c.Expr)
